@@ -401,8 +401,9 @@ def _blocks_case(mon, rng, it):
                 blocks[(iy, ix)] = nprng.integers(max(info.min, -30000) + 1, min(info.max, 30000), size=bshape).astype(dt)
         mixed = False
         if len(present) > 1 and rng.random() < 0.15:
-            k0 = present[0]
-            blocks[k0] = blocks[k0].astype("float64" if dt.kind == "f" else "int64")
+            k0 = rng.choice(present)  # any block, not just the first in the mapping, may be the wider one - and it holds values the narrower type cannot
+            wide = blocks[k0].astype("float64" if dt.kind == "f" else "int64")
+            blocks[k0] = wide + (1 / 3 if dt.kind == "f" else 100000 * (1 if dt.itemsize < 8 else 0))
             mixed = True
         desc = {"chunks": [list(cy), list(cx)], "axis": axis, "prefix": prefix, "postfix": postfix, "dtype": str(dt), "present": sorted(present), "mixed": mixed}
         if kind == "none" and (prefix or postfix):
